@@ -35,6 +35,8 @@ def _bytes_or_bad(fn):
 def parse_call(f, mode, pbf, validate):
     from pyubx2 import UBXReader
 
+    if len(f) % 2:
+        pbf = bool(pbf)  # the documented type of parsebitfield is bool; both spellings are exercised
     try:
         m = UBXReader.parse(bytes(f), msgmode=mode, validate=validate, parsebitfield=pbf)
     except Exception as ex:  # noqa: BLE001
@@ -87,10 +89,11 @@ def attrs_digest(m):
 def obs_c05_parse(case):
     f = bytes.fromhex(case["f"])
     history.run(case.get("hist"))
+    pbf = case.get("pbf", 1)
     if case.get("lenient_first"):
         # the verdict under VALCKSUM must not depend on an earlier lenient (VALNONE) parse of the same bytes
-        parse_call(f, case.get("mode", 0), 1, 0)
-    m, out = parse_call(f, case.get("mode", 0), 1, 1)
+        parse_call(f, case.get("mode", 0), pbf, 0)
+    m, out = parse_call(f, case.get("mode", 0), pbf, 1)
     return {"prop": "C05", "kind": "parse", "f": list(f), "out": out}
 
 
